@@ -115,6 +115,14 @@ pub fn cmd_node(r: &mut Runner, t: &[&str]) -> String {
         && end == addr
         && node.len() == trans.len();
     r.check(same, || format!("C09 node round trip: {} decoded fin={} fout={} end={} trans={}", line, node.is_final(), node.final_output().value(), end, show_trans(&dts)));
+    // the node's accessors agree with each other (len / is_empty / transitions / transition(i) / transition_addr(i))
+    let acc_ok = node.len() == dts.len()
+        && node.is_empty() == dts.is_empty()
+        && (0..node.len()).all(|i| {
+            let t = node.transition(i);
+            t.inp == dts[i].inp && t.out == dts[i].out && t.addr == dts[i].addr && node.transition_addr(i) == dts[i].addr
+        });
+    r.check(acc_ok, || format!("C09 C02 the accessors of a decoded node disagree (len={} is_empty={} transitions()={}): {}", node.len(), node.is_empty(), dts.len(), line));
     for b in 0..256usize {
         let want = trans.iter().position(|x| x.inp as usize == b);
         let got = node.find_input(b as u8);
